@@ -32,8 +32,8 @@ func init() {
 		Mutant{ID: "C03-detail-first-only", Prop: "C03", File: f, Old: "errs = append(errs, checkRequestInfo(expectedReqInfo, actualReqInfo, true)...)", New: "errs = append(errs, checkRequestInfo(expectedReqInfo, actualReqInfo, i == 0)...)",
 			Expect: []string{"first-only.checkError"}, Note: "seed C03-1: request info in error details verified only at index 0"},
 		Mutant{ID: "C03-merged-guard", Prop: "C03", File: f,
-			Old: "\tif len(expected.Payloads) == 0 &&\n\t\texpected.Error != nil &&\n\t\t(definition.Request.StreamType == conformancev1.StreamType_STREAM_TYPE_UNARY ||\n\t\t\tdefinition.Request.StreamType == conformancev1.StreamType_STREAM_TYPE_CLIENT_STREAM) {",
-			New: "\tif len(expected.Payloads) == 0 &&\n\t\texpected.Error != nil &&\n\t\tdefinition.Request.StreamType == conformancev1.StreamType_STREAM_TYPE_UNARY ||\n\t\tdefinition.Request.StreamType == conformancev1.StreamType_STREAM_TYPE_CLIENT_STREAM {",
+			Old:    "\tif len(expected.Payloads) == 0 &&\n\t\texpected.Error != nil &&\n\t\t(definition.Request.StreamType == conformancev1.StreamType_STREAM_TYPE_UNARY ||\n\t\t\tdefinition.Request.StreamType == conformancev1.StreamType_STREAM_TYPE_CLIENT_STREAM) {",
+			New:    "\tif len(expected.Payloads) == 0 &&\n\t\texpected.Error != nil &&\n\t\tdefinition.Request.StreamType == conformancev1.StreamType_STREAM_TYPE_UNARY ||\n\t\tdefinition.Request.StreamType == conformancev1.StreamType_STREAM_TYPE_CLIENT_STREAM {",
 			Expect: []string{"errflow.merged-guard"}, Note: "seed C03-2: merged-metadata leniency applied to every client stream"},
 		Mutant{ID: "C03-data-polarity", Prop: "C03", File: f, Old: "if !bytes.Equal(actualPayload.Data, expectedPayload.Data) {", New: "if bytes.Equal(actualPayload.Data, expectedPayload.Data) {",
 			Expect: []string{"polarity."}, Note: "payload data mismatch polarity inverted"},
@@ -226,8 +226,8 @@ func runC03(p *Prog, r *Report) {
 	}
 	type cov struct {
 		fn, typ string
-		fields []string
-		sides  []string
+		fields  []string
+		sides   []string
 	}
 	both := []string{"expected", "actual"}
 	for _, c := range []cov{
